@@ -220,7 +220,15 @@ def build_circuit(spec):
     for name in spec['order']:
         kind, d = byname[name]
         if kind == 'src':
-            if d['kind'] == 'Input':
+            if d['kind'] == 'Input' and d.get('faulty_event'):
+                # an on_output event whose delivery fails harmlessly for falsy values:
+                # the destination (a Counter) does not know the event type 'nosuch'
+                if 'sinkc' not in created:
+                    created['sinkc'] = edzed.Counter('sinkc', initdef=0)
+                created[name] = edzed.Input(name, initdef=d['init'], on_output=edzed.Event(
+                    created['sinkc'], edzed.EventCond('inc', 'nosuch'),
+                    efilter=edzed.not_from_undef))
+            elif d['kind'] == 'Input':
                 created[name] = edzed.Input(name, initdef=d['init'])
             else:
                 created[name] = edzed.Counter(name, initdef=d['init'])
@@ -324,6 +332,14 @@ def run_spec(spec, bursts, ctx, case):
                         edzed.ExtEvent(created[name], 'put').send(value)
                     else:
                         edzed.ExtEvent(created[name], etype).send()
+                except edzed.EdzedUnknownEvent as err:
+                    # a configured on_output event failed harmlessly (see 'faulty_event'): the
+                    # error goes to the sender, the simulation and the change itself stay
+                    ctx.count('harmless_event_failures')
+                    if not sim.alive():
+                        state['viol'] = state['viol'] or core.Violation(
+                            'unknown-event-stopped-simulation', f"burst {bi}: {err!r}")
+                        return False
                 except Exception as err:
                     state['viol'] = state['viol'] or core.Violation(
                         'external-event-failed', f"burst {bi}: {name}.{etype}({value!r}): {err!r}")
@@ -471,6 +487,8 @@ def random_spec(rng):
             sources.append({'name': f"o{i}", 'kind': 'Input', 'init': rng.choice(OBJVALS), 'obj': True})
         elif r0 < 0.7:
             sources.append({'name': f"i{i}", 'kind': 'Input', 'init': rng.random() < 0.5})
+            if rng.random() < 0.12:
+                sources[-1]['faulty_event'] = True
         else:
             sources.append({'name': f"n{i}", 'kind': 'Counter', 'init': rng.randrange(0, 6)})
     ncb = rng.choice([1, 2, 3, 4, 5, 6, 8, 10, 12])
